@@ -1010,6 +1010,244 @@ Proof.
   rewrite val_eqb_refl. apply orb_true_r.
 Qed.
 
+(* ---------------- central theorem, part by part ---------------- *)
+(* receiver's-choice class: the property demands nothing *)
+Lemma prop_C46_dontcare tmo limit chunks os od o :
+  spec_classify limit os od (concat chunks) = SDontCare -> prop_C46 (in_C46 tmo limit chunks os od) o = true.
+Proof. intros H. unfold prop_C46. rewrite dec_in_C46, H. apply orb_true_r. Qed.
+
+Ltac break_match :=
+  repeat first
+    [ discriminate
+    | match goal with
+      | |- context [match ?x with _ => _ end] => destruct x eqn:?
+      end ].
+
+Lemma spec_v2_not_noheader lim s : spec_v2 lim s <> SNoHeader.
+Proof. unfold spec_v2. break_match. Qed.
+Lemma spec_v1_not_noheader lim os od s : spec_v1 lim os od s <> SNoHeader.
+Proof. unfold spec_v1. break_match. Qed.
+
+Lemma spec_noheader_inv limit os od s : spec_classify limit os od s = SNoHeader ->
+  is_prefix SIGV1 s = false /\ is_prefix SIGV2 s = false /\ s <> [].
+Proof.
+  unfold spec_classify. intros H.
+  destruct (is_prefix SIGV1 s) eqn:E1; [exfalso; eapply spec_v1_not_noheader; exact H|].
+  destruct (is_prefix SIGV2 s) eqn:E2; [exfalso; eapply spec_v2_not_noheader; exact H|].
+  destruct s as [|c s]; [cbn in H; discriminate|].
+  repeat split; discriminate.
+Qed.
+
+(* no-header class outside finding 1: passed through untouched *)
+Theorem prop_C46_noheader tmo limit chunks os od :
+  blen (concat chunks) <= BUFSZ ->
+  spec_classify limit os od (concat chunks) = SNoHeader ->
+  kf_C46 (in_C46 tmo limit chunks os od) = 0 ->
+  prop_C46 (in_C46 tmo limit chunks os od) (run_C46 (in_C46 tmo limit chunks os od)) = true.
+Proof.
+  intros Hb Hc Hk. unfold kf_C46 in Hk. unfold prop_C46, run_C46. rewrite dec_in_C46 in *. rewrite Hc in *.
+  destruct (spec_noheader_inv _ _ _ _ Hc) as (H1 & H2 & Hne).
+  destruct (short_sig_first limit (concat chunks)) eqn:Es; [discriminate|].
+  destruct (concat chunks) as [|c rest] eqn:Ecs; [congruence|].
+  unfold short_sig_first in Es.
+  assert (Hrun : conn_run tmo limit chunks os od = VL [VL []; VL []; VB (c :: rest); VZ 0; VZ 0]).
+  { destruct ((c =? 80) || (c =? 13)) eqn:Ec.
+    - cbn [andb] in Es. rewrite <- Ecs.
+      apply no_header_passthrough_sig; rewrite ?Ecs; try assumption; lia.
+    - apply (no_header_passthrough tmo limit chunks os od c rest); rewrite ?Ecs; try assumption; try reflexivity; lia. }
+  rewrite Hrun, val_eqb_refl. apply orb_true_r.
+Qed.
+
+(* conformant v2 LOCAL headers *)
+Lemma spec_classify_v2_local limit os od fam block tlv payload :
+  16 + blen (block ++ tlv) <= eff_limit limit -> blen (block ++ tlv) < 65536 ->
+  spec_classify limit os od (enc_v2 32 fam block tlv ++ payload) = SHeader None payload.
+Proof.
+  intros Hlim HL.
+  assert (Hs : enc_v2 32 fam block tlv ++ payload = v2_stream 32 fam (blen (block ++ tlv)) ((block ++ tlv) ++ payload)).
+  { unfold enc_v2, SIGV2, u16be, v2_stream. cbn [app]. rewrite <- !app_assoc. reflexivity. }
+  rewrite Hs. set (blk := block ++ tlv) in *.
+  pose proof (blen_nonneg payload) as Hp0. pose proof (blen_nonneg blk) as Hk0.
+  unfold spec_classify.
+  change (is_prefix SIGV1 (v2_stream 32 fam (blen blk) (blk ++ payload))) with false.
+  change (is_prefix SIGV2 (v2_stream 32 fam (blen blk) (blk ++ payload))) with true.
+  cbv beta iota. unfold spec_v2. rewrite blen_v2_stream, blen_app.
+  replace (eff_limit limit <? 16) with false by lia.
+  replace (16 + (blen blk + blen payload) <? 16) with false by lia.
+  unfold v2_stream. cbn [nth skipn]. rewrite !be16_u16t by lia.
+  change ((32 =? 32) || (32 =? 33)) with true. change (32 =? 32) with true. cbn [negb].
+  replace (eff_limit limit <? 16 + blen blk) with false by lia.
+  replace (16 + (blen blk + blen payload) <? 16 + blen blk) with false by lia.
+  cbn [skipn Nat.add]. rewrite skipn_app_exactZ. reflexivity.
+Qed.
+
+Theorem prop_C46_v2_local tmo limit chunks os od fam block tlv payload :
+  concat chunks = enc_v2 32 fam block tlv ++ payload ->
+  blen (concat chunks) <= BUFSZ ->
+  16 + blen (block ++ tlv) <= eff_limit limit ->
+  prop_C46 (in_C46 tmo limit chunks os od) (run_C46 (in_C46 tmo limit chunks os od)) = true
+  /\ kf_C46 (in_C46 tmo limit chunks os od) = 0.
+Proof.
+  intros Hs Hb Hlim.
+  assert (HL : blen (block ++ tlv) < 65536).
+  { assert (Hs2 : enc_v2 32 fam block tlv ++ payload = v2_stream 32 fam (blen (block ++ tlv)) ((block ++ tlv) ++ payload)).
+    { unfold enc_v2, SIGV2, u16be, v2_stream. cbn [app]. rewrite <- !app_assoc. reflexivity. }
+    rewrite Hs, Hs2, blen_v2_stream, blen_app in Hb. change BUFSZ with 4096 in Hb. pose proof (blen_nonneg payload). lia. }
+  unfold prop_C46, kf_C46, run_C46. rewrite dec_in_C46.
+  rewrite (v2_local_roundtrip tmo limit chunks os od fam block tlv payload Hs Hb Hlim).
+  rewrite Hs, (spec_classify_v2_local limit os od fam block tlv payload Hlim HL).
+  split; [|reflexivity].
+  rewrite val_eqb_refl. apply orb_true_r.
+Qed.
+
+(* conformant v1 TCP4 lines *)
+Lemma all_ports_strict : forallb (fun h => forallb (fun l => opt_eqb (strict_port (dec_of_Z (Z.of_nat h * 256 + Z.of_nat l))) (Z.of_nat h * 256 + Z.of_nat l)) (seq 0 256)) (seq 0 256) = true.
+Proof. vm_compute. reflexivity. Qed.
+Lemma strict_port_ok p : 0 <= p < 65536 -> strict_port (dec_of_Z p) = Some p.
+Proof.
+  intros H. pose proof all_ports_strict as A. rewrite forallb_forall in A.
+  assert (Hh : 0 <= p / 256 < 256) by (split; [apply Z.div_pos; lia|apply Z.div_lt_upper_bound; lia]).
+  assert (Hl : 0 <= p mod 256 < 256) by (apply Z.mod_pos_bound; lia).
+  specialize (A (Z.to_nat (p / 256)) ltac:(apply in_seq; lia)). rewrite forallb_forall in A.
+  specialize (A (Z.to_nat (p mod 256)) ltac:(apply in_seq; lia)).
+  rewrite !Z2Nat.id in A by lia.
+  replace (p / 256 * 256 + p mod 256) with p in A by (pose proof (Z.div_mod p 256 ltac:(lia)); lia).
+  apply opt_eqb_eq. exact A.
+Qed.
+
+Lemma spec_classify_v1_tcp4 limit os od a b c d e f g h sp dp payload :
+  0 <= a < 256 -> 0 <= b < 256 -> 0 <= c < 256 -> 0 <= d < 256 ->
+  0 <= e < 256 -> 0 <= f < 256 -> 0 <= g < 256 -> 0 <= h < 256 ->
+  0 <= sp < 65536 -> 0 <= dp < 65536 ->
+  blen (enc_v1_tcp4 [a; b; c; d] [e; f; g; h] sp dp) <= eff_limit limit ->
+  spec_classify limit os od (enc_v1_tcp4 [a; b; c; d] [e; f; g; h] sp dp ++ payload) =
+  SHeader (Some (([a; b; c; d], sp), ([e; f; g; h], dp))) payload.
+Proof.
+  intros Ha Hb Hc Hd He Hf Hg Hh Hsp Hdp Hlim.
+  destruct (dotted_ok a b c d Ha Hb Hc Hd) as (PS & S32 & S10 & S58).
+  destruct (dotted_ok e f g h He Hf Hg Hh) as (PD & D32 & D10 & D58).
+  destruct (port_ok sp Hsp) as (DSp & PSp). destruct (port_ok dp Hdp) as (DDp & PDp).
+  pose proof (strict_port_ok sp Hsp) as SSp. pose proof (strict_port_ok dp Hdp) as SDp.
+  rewrite enc_v1_tcp4_body in *.
+  set (body := v1_body [a; b; c; d] [e; f; g; h] sp dp) in *.
+  assert (Hbody : exists tl, body = 80 :: 82 :: 79 :: 88 :: 89 :: tl).
+  { unfold body, v1_body, v1_toks, SIGV1. cbn [join_byte app]. eexists. reflexivity. }
+  destruct Hbody as (tl & Hbody).
+  assert (Htoks32 : Forall (noc 32) (v1_toks [a; b; c; d] [e; f; g; h] sp dp)).
+  { unfold v1_toks. repeat constructor; try assumption; try reflexivity; apply digits_noc; try assumption; reflexivity. }
+  assert (Htoks10 : Forall (noc 10) (v1_toks [a; b; c; d] [e; f; g; h] sp dp)).
+  { unfold v1_toks. repeat constructor; try assumption; try reflexivity; apply digits_noc; try assumption; reflexivity. }
+  assert (Hnl : has_nl (body ++ [13]) = false).
+  { apply noc_app; [apply noc_join; [reflexivity|exact Htoks10]|reflexivity]. }
+  assert (Hsplit : split_byte 32 body = v1_toks [a; b; c; d] [e; f; g; h] sp dp).
+  { unfold body, v1_body. apply split_join; [discriminate|exact Htoks32]. }
+  assert (Hs : (body ++ [13; 10]) ++ payload = (body ++ [13]) ++ 10 :: payload).
+  { rewrite <- !app_assoc. reflexivity. }
+  rewrite Hs.
+  unfold spec_classify.
+  assert (Hp1 : is_prefix SIGV1 ((body ++ [13]) ++ 10 :: payload) = true).
+  { rewrite Hbody. reflexivity. }
+  rewrite Hp1. unfold spec_v1.
+  rewrite has_nl_app. replace (has_nl (10 :: payload)) with true by reflexivity. rewrite orb_true_r. cbn [negb].
+  rewrite cut_nl_app by exact Hnl. rewrite ends_crlf_ok. cbn [negb].
+  assert (Hll : blen ((body ++ [13]) ++ [10]) = blen (body ++ [13; 10])) by (rewrite <- app_assoc; reflexivity).
+  rewrite Hll. replace (eff_limit limit <? blen (body ++ [13; 10])) with false by lia.
+  rewrite strip_crlf, Hsplit. unfold v1_toks. cbn [nth length].
+  change (bytes_eqb T_TCP4 T_UNKNOWN) with false. cbn [andb].
+  change (bytes_eqb T_TCP4 T_TCP4) with true. change (bytes_eqb T_TCP4 T_TCP6) with false. cbn [orb].
+  change (6 <? 6)%nat with false. cbv beta iota zeta.
+  unfold noc in S58, D58. unfold has_colon. rewrite S58, D58, PS, PD.
+  unfold port_shape_ok. rewrite PSp, PDp. cbn [orb negb]. rewrite SSp, SDp.
+  reflexivity.
+Qed.
+
+Theorem prop_C46_v1_tcp4 tmo limit chunks os od src dst sp dp payload :
+  concat chunks = enc_v1_tcp4 src dst sp dp ++ payload ->
+  blen (concat chunks) <= BUFSZ ->
+  blen src = 4 -> blen dst = 4 -> wf_bytes src = true -> wf_bytes dst = true ->
+  0 <= sp < 65536 -> 0 <= dp < 65536 ->
+  blen (enc_v1_tcp4 src dst sp dp) <= eff_limit limit ->
+  prop_C46 (in_C46 tmo limit chunks os od) (run_C46 (in_C46 tmo limit chunks os od)) = true
+  /\ kf_C46 (in_C46 tmo limit chunks os od) = 0.
+Proof.
+  intros Hs Hb Hls Hld Hws Hwd Hsp Hdp Hlim.
+  unfold prop_C46, kf_C46, run_C46. rewrite dec_in_C46.
+  rewrite (v1_tcp4_roundtrip tmo limit chunks os od src dst sp dp payload Hs Hb Hls Hld Hws Hwd Hsp Hdp Hlim).
+  destruct (wf4 src Hls Hws) as (a & b & c & d & -> & Ha & Hb' & Hc & Hd).
+  destruct (wf4 dst Hld Hwd) as (e & f & g & h & -> & He & Hf & Hg & Hh).
+  rewrite Hs, (spec_classify_v1_tcp4 limit os od a b c d e f g h sp dp payload) by assumption.
+  split; [|reflexivity].
+  rewrite val_eqb_refl. apply orb_true_r.
+Qed.
+
+(* conformant v1 UNKNOWN lines *)
+Lemma spec_classify_v1_unknown limit os od junk payload :
+  (junk = [] \/ exists j, junk = 32 :: j) -> noc 10 junk ->
+  blen (enc_v1_unknown junk) <= eff_limit limit ->
+  spec_classify limit os od (enc_v1_unknown junk ++ payload) = SHeader None payload.
+Proof.
+  intros Hj Hj10 Hlim.
+  set (body := SIGV1 ++ 32 :: T_UNKNOWN ++ junk).
+  assert (Henc : enc_v1_unknown junk = body ++ [13; 10]).
+  { unfold enc_v1_unknown, body. repeat (rewrite <- app_assoc; cbn [app]). reflexivity. }
+  rewrite Henc in *.
+  assert (Hnl : has_nl (body ++ [13]) = false).
+  { apply noc_app; [|reflexivity]. unfold body. apply noc_app; [reflexivity|]. apply noc_cons; [reflexivity|].
+    apply noc_app; [reflexivity|exact Hj10]. }
+  assert (Hsplit : exists more, split_byte 32 body = SIGV1 :: T_UNKNOWN :: more).
+  { unfold body. rewrite split_app_noc by reflexivity.
+    destruct Hj as [-> | (j & ->)].
+    - rewrite app_nil_r. rewrite split_noc by reflexivity. eexists. reflexivity.
+    - rewrite split_app_noc by reflexivity. eexists. reflexivity. }
+  destruct Hsplit as (more & Hsplit).
+  assert (Hs : (body ++ [13; 10]) ++ payload = (body ++ [13]) ++ 10 :: payload).
+  { rewrite <- !app_assoc. reflexivity. }
+  rewrite Hs. unfold spec_classify.
+  assert (Hp1 : is_prefix SIGV1 ((body ++ [13]) ++ 10 :: payload) = true).
+  { unfold body, SIGV1. reflexivity. }
+  rewrite Hp1. unfold spec_v1.
+  rewrite has_nl_app. replace (has_nl (10 :: payload)) with true by reflexivity. rewrite orb_true_r. cbn [negb].
+  rewrite cut_nl_app by exact Hnl. rewrite ends_crlf_ok. cbn [negb].
+  assert (Hll : blen ((body ++ [13]) ++ [10]) = blen (body ++ [13; 10])) by (rewrite <- app_assoc; reflexivity).
+  rewrite Hll. replace (eff_limit limit <? blen (body ++ [13; 10])) with false by lia.
+  rewrite strip_crlf, Hsplit. cbn [nth length].
+  change (bytes_eqb T_UNKNOWN T_UNKNOWN) with true. cbn [andb Nat.leb]. reflexivity.
+Qed.
+
+Theorem prop_C46_v1_unknown tmo limit chunks os od junk payload :
+  concat chunks = enc_v1_unknown junk ++ payload ->
+  blen (concat chunks) <= BUFSZ ->
+  (junk = [] \/ exists j, junk = 32 :: j) -> noc 10 junk ->
+  blen (enc_v1_unknown junk) <= eff_limit limit ->
+  prop_C46 (in_C46 tmo limit chunks os od) (run_C46 (in_C46 tmo limit chunks os od)) = true
+  /\ kf_C46 (in_C46 tmo limit chunks os od) = 0.
+Proof.
+  intros Hs Hb Hj Hj10 Hlim.
+  unfold prop_C46, kf_C46, run_C46. rewrite dec_in_C46.
+  rewrite (v1_unknown_roundtrip tmo limit chunks os od junk payload Hs Hb Hj Hj10 Hlim).
+  rewrite Hs, (spec_classify_v1_unknown limit os od junk payload Hj Hj10 Hlim).
+  split; [|reflexivity].
+  rewrite val_eqb_refl. apply orb_true_r.
+Qed.
+
+(* the general part of the central theorem, for arbitrary well-formed inputs *)
+Lemma dec_C46_in i t l c os od : dec_C46 i = Some (t, l, c, os, od) ->
+  prop_C46 i (run_C46 i) = prop_C46 (in_C46 t l c os od) (run_C46 (in_C46 t l c os od))
+  /\ kf_C46 i = kf_C46 (in_C46 t l c os od).
+Proof. intros H. unfold prop_C46, run_C46, kf_C46. rewrite dec_in_C46, H. split; reflexivity. Qed.
+
+Theorem central_general i :
+  wf_C46 i = true -> kf_C46 i = 0 -> guard_C46 i = true -> prop_C46 i (run_C46 i) = true.
+Proof.
+  unfold wf_C46, guard_C46. intros Hwf Hk Hg.
+  destruct (dec_C46 i) as [[[[[t l] c] os] od]|] eqn:Hd; [|discriminate].
+  destruct (dec_C46_in i t l c os od Hd) as [E1 E2]. rewrite E1. rewrite E2 in Hk.
+  assert (Hb : blen (concat c) <= BUFSZ) by (change BUFSZ with 4096; lia).
+  destruct (spec_classify l os od (concat c)) eqn:Ec; try discriminate.
+  - apply prop_C46_noheader; assumption.
+  - apply prop_C46_dontcare; assumption.
+Qed.
+
 (* ---------------- concrete instances (non-vacuity) ---------------- *)
 Definition ex_chunks_v2 : list bytes :=
   [[13; 10; 13]; [10; 0; 13; 10; 81; 85; 73; 84; 10; 33; 17; 0]; [15; 1; 2; 3; 4; 5; 6; 7; 8; 0; 80; 1; 187; 9; 9; 9; 104]; [105]].
@@ -1032,3 +1270,10 @@ Proof. split; vm_compute; reflexivity. Qed.
 Lemma ex_malformed_lemma :
   conn_run false 0 [[13; 10; 13; 10; 0; 13; 10; 81; 85; 73; 84; 10; 34; 17; 0; 0; 104; 105]] [] [] = VL [VL []; VL []; VB []; VZ 2; VZ 1].
 Proof. vm_compute. reflexivity. Qed.
+
+Lemma central_examples :
+  wf_C46 (VL [VZ 0; VL [VB [71; 69; 84; 32]; VB [47; 13; 10]]; VB []; VB []; VZ 1]) = true
+  /\ guard_C46 (VL [VZ 0; VL [VB [71; 69; 84; 32]; VB [47; 13; 10]]; VB []; VB []; VZ 1]) = true
+  /\ kf_C46 (VL [VZ 0; VL [VB [71; 69; 84; 32]; VB [47; 13; 10]]; VB []; VB []; VZ 1]) = 0
+  /\ wf_C46 (in_C46 false 0 ex_chunks_v2 [] []) = true.
+Proof. vm_compute. repeat split. Qed.
